@@ -312,6 +312,10 @@ def split_before_whitespace_decision(ctx, rule):
 
 
 def run(ctx):
+    ctx.rule("R08.6", "= R03.16 / R15.11: with exact_errors on and off, input stream preprocessing does the same thing to every character - the error report is the only difference (an early return for reported characters would skip the pending-CR handling)")
+    from . import tokrules as _tr6
+    for _w in ("html", "xml"):
+        ctx.guard("R08.6", "preprocessing/" + _w, lambda _w=_w: _tr6.preprocess_transcription(ctx, "R08.6", _w))
     ctx.rule("R08.5", "the SIMD scan (taken only when exact_errors is off) counts exactly the line breaks it consumes (shared with R09.6): line numbers do not depend on the option")
     def simd():
         import rules.C09 as c9
